@@ -1331,7 +1331,10 @@ mkassignexpr(struct expr *l, struct expr *r)
 
 	e = mkexpr(EXPRASSIGN, l->type, NULL);
 	e->u.assign.l = l;
-	e->u.assign.r = exprconvert(r, l->type);
+	/* any integer constant expression with value 0 is a null pointer constant */
+	if (l->type->kind == TYPEPOINTER && r->type->prop & PROPINT)
+		r = eval(r);
+	e->u.assign.r = exprassign(r, l->type);
 	return e;
 }
 
